@@ -609,6 +609,37 @@ def srun : SOP → List SOp → Option SOP
     | none => none
     | some (s', _) => srun s' ops
 
+/-! ## `size_t` is 64 bits wide: rounding the request up can wrap
+
+`malloc` / `realloc` above compute with unbounded naturals.  In C the statement
+`len += __WORDSIZE - len % __WORDSIZE` wraps around for requests within
+`__WORDSIZE` of `SIZE_MAX`.  After
+`fix: malloc()/realloc() fail when rounding the request up to __WORDSIZE wraps around`
+both routines test for it first and return NULL (`malloc64` / `realloc64`: what
+the driver runs).  `mallocOrig64` / `reallocOrig64` are the routines as they
+were: the wrapped sum is used as the request. -/
+
+def SIZE_MAX : Nat := 2 ^ 64 - 1
+
+/-- ```
+if (len % __WORDSIZE != 0) { pad = __WORDSIZE - len % __WORDSIZE;
+                             if (len > SIZE_MAX - pad) { __allocation_counter--; return 0; }
+                             len += pad; }
+``` -/
+def malloc64 (cfg : Cfg) (h : Heap) (len0 : Nat) : Res :=
+  if len0 % cfg.W ≠ 0 ∧ len0 > SIZE_MAX - (cfg.W - len0 % cfg.W) then ⟨h, none, []⟩ else malloc cfg h len0
+
+/-- the same test in `realloc`, before anything else: the block is left untouched -/
+def realloc64 (cfg : Cfg) (h : Heap) (ptr : Option Nat) (len0 : Nat) : Option Res :=
+  if len0 % cfg.W ≠ 0 ∧ len0 > SIZE_MAX - (cfg.W - len0 % cfg.W) then some ⟨h, none, []⟩
+  else realloc cfg h ptr len0
+
+/-- before the fix: `len` wraps modulo 2⁶⁴ -/
+def mallocOrig64 (cfg : Cfg) (h : Heap) (len0 : Nat) : Res := malloc cfg h (roundLen cfg.W len0 % 2 ^ 64)
+
+def reallocOrig64 (cfg : Cfg) (h : Heap) (ptr : Option Nat) (len0 : Nat) : Option Res :=
+  realloc cfg h ptr (roundLen cfg.W len0 % 2 ^ 64)
+
 /-! ## pools fed from several zones
 
 `pool_init` and `pool_engage` are separate calls so that a pool can be fed from
